@@ -44,8 +44,10 @@ struct State {
   void (*on_release)(void *p, size_t n, char kind) = nullptr;      // called before free / munmap / realloc of an existing block
   void (*on_realloc_entry)(void *p, size_t oldsize, size_t newsize) = nullptr;
   uint64_t double_free = 0, foreign_free = 0;
+  std::vector<void *> failed_unmaps;  // mappings whose own munmap was the injected failure (the only ones that may stay mapped)
   void begin(long f1 = -1, long f2 = -1) {
     events.clear();
+    failed_unmaps.clear();
     req = 0;
     fail_at = f1;
     fail_at2 = f2;
@@ -136,6 +138,7 @@ int vf_munmap(void *p, size_t len) {
   auto &s = vf::shim::S();
   if (s.should_fail()) {
     s.events.push_back({'U', len, true, 0});
+    s.failed_unmaps.push_back(p);
     errno = EINVAL;
     return -1;
   }
